@@ -59,7 +59,9 @@ Update(w, bb, xx, rl, bt) ==
 Conv(w, bb, xx) == LET yh == YHat(w, xx)  bb2 == Dot([i \in Rows |-> R(bb[i])], [i \in Rows |-> R(bb[i])], M)
                    IN RDiv(RSub(bb2, Dot(yh, yh, M)), bb2)
 
-Guesses == {[j \in Cols |-> <<1, 1>>], [j \in Cols |-> <<0, 1>>], [j \in Cols |-> RNorm(j, 2)]}
+\* initial guesses: ones, zeros, a ramp, and one with a negative first entry (the iterate is clipped at zero in every voxel,
+\* seen by a detector or not, so nothing negative survives the first step)
+Guesses == {[j \in Cols |-> <<1, 1>>], [j \in Cols |-> <<0, 1>>], [j \in Cols |-> RNorm(j, 2)], [j \in Cols |-> IF j = 1 THEN <<-1, 2>> ELSE <<1, 1>>]}
 
 Init == /\ W \in [Rows -> [Cols -> Entries]]
         /\ b \in [Rows -> Meas]
@@ -80,12 +82,12 @@ Next == Iterate
 Spec == Init /\ [][Next]_vars
 
 \* the solution is never negative
-NonNegative == \A l \in Cols : x[l][1] >= 0
+NonNegative == k > 0 => \A l \in Cols : x[l][1] >= 0           \* (the guess itself may be negative somewhere)
 \* an exact non-negative solution (W x0 = b, no penalty) is a fixed point
 ExactSolutionIsFixedPoint ==
-    ((\A i \in Rows : YHat(W, x0)[i] = R(b[i])) /\ (beta = 0 \/ \A l \in Cols : Lap(x0, l)[1] = 0)) => x = x0
+    ((\A l \in Cols : x0[l][1] >= 0) /\ (\A i \in Rows : YHat(W, x0)[i] = R(b[i])) /\ (beta = 0 \/ \A l \in Cols : Lap(x0, l)[1] = 0)) => x = x0
 \* with a zero column the voxel nobody sees keeps its value in the unconstrained variant
-UnseenVoxelKeepsValue == beta = 0 => \A l \in Cols : ColSum(W, l)[1] = 0 => x[l] = x0[l]
+UnseenVoxelKeepsValue == beta = 0 => \A l \in Cols : ColSum(W, l)[1] = 0 => x[l] = (IF k > 0 /\ x0[l][1] < 0 THEN <<0, 1>> ELSE x0[l])
 
 \* the iteration is unchanged when the geometry matrix and the measurements are multiplied by the same factor (the update divides
 \* by the row and column sums), so the iterate of (c W, c b) is the iterate of (W, b): compared at c = 10^e for these exponents
